@@ -47,6 +47,20 @@ CHECKS["C18"] = dict(engine="Mux", design="§4 C18",
     note="Trusted: Go runtime/race detector, TLC. No hooks: call/return/connection-close events only; internal steps are inferred. A violation is reported only if the same instance reproduces it in 300 re-runs.",
     technique="TLA+ spec (Mux.tla) + TLC exhaustive safety and liveness + black-box trace validation with inferred internal steps (MuxTrace.tla) + Go race detector")
 
+HS_NOTE = ("Trusted: crypto/tls (proof of possession, record layer), crypto/x509 path validation, TLC. Clients are real TLS clients on loopback built from the abstract "
+           "record; the server side is the real InterceptingListener with harness-owned storage and base listener (which also lets the harness parse the raw ClientHello).")
+CHECKS["C02"] = dict(engine="Handshake", design="§4 C02",
+    text="Handshake.tla models the accept pipeline; TLC checks for every history of enrol/remove/reinitialise and every client of the capability product that an authenticated outcome implies possession, a chain to a currently valid root, subject-key binding and a nonce (and state) signature by a stored record, and that peer-set fields enlarge nothing. TLC-generated histories and clients (random, honest, honest-with-one-capability-changed) run as real crypto/tls clients against the real listener; recorded outcomes are judged by HandshakeTrace.tla.",
+    note=HS_NOTE, technique="TLA+ spec (Handshake.tla) + TLC exhaustive capability product + adversarial TLS client replay + TLC trace validation")
+CHECKS["C14"] = dict(engine="Handshake", design="§4 C14", category="model_checking",
+    text="The spec fixes the required outcome (temporary per-connection error, listener keeps serving) for every malformed-input class x library prefix; TLC draws class sequences interleaved with honest dials; the driver concretises each class with seeded random content (ALPN lists, raw bytes, drops at several stages) against the real listener with recover() around Accept; TLC judges every recorded outcome and the follow-up honest dials.",
+    note=HS_NOTE + " Byte-level coverage inside a class is seeded sampling (and every entry length in the thorough tier), not TLC.",
+    technique="TLA+ spec input classes + TLC-generated sequences + seeded concretisation + TLC trace validation")
+CHECKS["C16"] = dict(engine="Handshake", design="§4 C16",
+    text="For every authenticated connection of TLC-generated behaviours (honest dials with extra-ALPN and client-state classes, and adversarial clients that do get authenticated) the reported protocol list must equal the list parsed by the harness from the raw ClientHello minus the certificate-preference entry, the state must equal the supplied one and be present only when verified, and the returned list must be a copy; judged by TLC on the recorded trace.",
+    note=HS_NOTE + " An empty client state is identified with an absent one (an empty message marshals to zero bytes on this wire format).",
+    technique="TLA+ spec + TLC-generated behaviours + real dials with harness-side ClientHello parsing + TLC trace validation")
+
 PENDING = {}
 for i in range(1, 21):
     pid = "C%02d" % i
